@@ -303,6 +303,9 @@ def rigid_rules(ctx):
 
 
 def run(ctx):
+    from . import e2e_rules as _e2e
+
+    ctx.attempt(_e2e.frame_rule_e2e, ctx, 'R10.E1')
     from .c07 import embedding_dimension_rule as _embedding_dimension_rule
 
     # 'members in any embedding': the embedding dimension read from the coordinates (a frame lying in the (x, z) plane is 3-D)
